@@ -17,6 +17,11 @@
 //!                                                        the model run on the regenerated null-check table
 //!   ffi_str   {"fn": name, "payload": hex}                the string-taking extern "C" functions on arbitrary bytes (invalid UTF-8, …)
 //!   ffi_logger {"seq": ["stderr"|"callback", ...]}        the logger initialisers, in a CHILD process (a panic in extern "C" aborts)
+//!   request_time {"created_at": str, "year": int, "via": "request"|"example"}   a rule with a `request_time` variable on a
+//!                                                        request dated `created_at` — obs {"panics": bool} compared with the model
+//!                                                        (finding W8-F2: chrono's to_rfc2822 panics outside years 0..=9999)
+//! Known findings are only generated with `gen … --with-findings` (see notes/wp/W8.md): by default the generator keeps the
+//! two defect triggers out of every family, so that a run on the unchanged tree reports only NEW panics.
 //! obs: {"ok": true} for the search families (the model predicts "returns normally"), see above for slice / ffi_null /
 //! ffi_logger.  A panic is caught by the framework (sig `panic`); an abort / stack overflow / hang kills the shard and is
 //! reported by ./check as `crash` on the first missing case.
@@ -426,6 +431,19 @@ fn gen(args: &Args, emit: &mut dyn FnMut(Value)) {
             emit(json!({"family": "ffi_logger", "seq": seq}));
         }
     }
+    // request_time: years the RFC 2822 formatter accepts; the others only on request (finding W8-F2)
+    for (d, y) in [("2000-01-01T00:00:00Z", 2000), ("0000-01-01T00:00:00Z", 0), ("9999-12-31T23:59:59Z", 9999), ("1970-01-01T00:00:00+14:00", 1969)] {
+        for via in ["request", "example"] {
+            emit(json!({"family": "request_time", "created_at": d, "year": y, "via": via}));
+        }
+    }
+    if with_findings {
+        for (d, y) in [("+10000-01-01T00:00:00Z", 10000), ("-0001-01-01T00:00:00Z", -1), ("+262142-12-31T23:59:59Z", 262142), ("9999-12-31T23:59:59-01:00", 10000)] {
+            for via in ["request", "example"] {
+                emit(json!({"family": "request_time", "created_at": d, "year": y, "via": via}));
+            }
+        }
+    }
     // slice boundaries, exhaustively on three short strings
     for s in ["", "abc", "aé", "é日a"] {
         let n = s.len() as u64;
@@ -516,9 +534,23 @@ fn gen(args: &Args, emit: &mut dyn FnMut(Value)) {
                 }
             }
         };
+        // keep the trigger of the known finding W8-F2 (request_time variable x year outside 0..=9999) out of the search
+        // families; it has its own family with a model
+        let case = if with_findings {
+            case
+        } else {
+            let text = case.to_string();
+            if text.contains("request_time") && OUT_OF_RANGE_DATES.iter().any(|d| text.contains(d)) {
+                serde_json::from_str(&text.replace("\"request_time\"", "\"request_scheme\"")).unwrap()
+            } else {
+                case
+            }
+        };
         emit(case);
     }
 }
+
+const OUT_OF_RANGE_DATES: &[&str] = &["+10000-01-01T00:00:00Z", "-0001-01-01T00:00:00Z", "+262142-12-31T23:59:59Z"];
 
 // ------------------------------------------------------------------------------------------------
 // run
@@ -1165,6 +1197,45 @@ fn run_ffi_logger(case: &Value) -> Obs {
     }
 }
 
+const RT_RULE: &str = r#"{"id":"rt","source":{"path":"/a"},"rank":0,"target":"/t/@t","status_code":302,"variables":[{"name":"t","type":"request_time"}],
+  "body_filters":null,"header_filters":null,"log_override":null,"reset":null,"stop":null,"examples":null,"redirect_unit_id":null,
+  "configuration_log_unit_id":null,"configuration_reset_unit_id":null,"target_hash":null}"#;
+
+fn run_request_time(case: &Value) -> Obs {
+    use chrono::Datelike;
+    let created_at = s(case, "created_at").unwrap_or_default();
+    let year = case.get("year").and_then(|y| y.as_i64());
+    let parsed = created_at.parse::<chrono::DateTime<chrono::Utc>>();
+    match (&parsed, year) {
+        (Ok(dt), Some(y)) if dt.year() as i64 == y => {}
+        _ => return Obs::invalid("request_time: created_at does not parse to the stated year"),
+    }
+    let rule: Rule = serde_json::from_str(RT_RULE).unwrap();
+    let via = s(case, "via").unwrap_or_default();
+    let res = std::panic::catch_unwind(|| {
+        if via == "example" {
+            let input: ExplainRequestInput = serde_json::from_value(json!({"router_config": {}, "rules": [serde_json::to_value(&rule).unwrap()], "max_hops": 2,
+                "example": {"url": "/a", "method": null, "headers": null, "datetime": created_at, "ip_address": null, "response_status_code": null, "must_match": true, "unit_ids_applied": null}})).unwrap();
+            ExplainRequestOutput::create_result_without_project(input).map(|o| serde_json::to_value(&o).unwrap()["response"]["headers"].to_string()).unwrap_or_default()
+        } else {
+            let config = RouterConfig::default();
+            let mut router = Router::<Rule>::from_config(config.clone());
+            router.insert(rule.clone());
+            let mut request = Request::from_config(&config, "/a".to_string(), None, None, None, None, None);
+            request.set_created_at(Some(created_at.clone()));
+            let mut action = Action::from_routes_rule(router.match_request(&request), &request, None);
+            format!("{:?}", action.filter_headers(Vec::new(), 302, false, None))
+        }
+    });
+    let panics = res.is_err();
+    let o = Obs::new(json!({"panics": panics})).tag(format!("request_time:{}", if panics { "panic" } else { "ok" }));
+    if panics {
+        o.fail(format!("a rule with a request_time variable panics on a request dated {created_at} (DateTime::to_rfc2822)"), "request-time-rfc2822")
+    } else {
+        o
+    }
+}
+
 fn run(case: &Value) -> Obs {
     let fam = s(case, "family").unwrap_or_default();
     let o = match fam.as_str() {
@@ -1179,6 +1250,7 @@ fn run(case: &Value) -> Obs {
         "ffi_null" => run_ffi_null(case),
         "ffi_str" => run_ffi_str(case),
         "ffi_logger" => run_ffi_logger(case),
+        "request_time" => run_request_time(case),
         _ => return Obs::invalid("family"),
     };
     o.tag(format!("family:{fam}"))
